@@ -4,13 +4,25 @@ import Mdsort.Spec.Decode
 /-!
 # Reference MIME reading (specification for C11)
 
-The RFC 2046 subset mdsort documents: a multipart entity announces
-`multipart/<sub>; boundary="<b>"`; its body is cut at *lines* that are exactly
-`--<b>` (separator) or `--<b>--` (terminator) and are terminated by a newline;
-parts are the texts between consecutive delimiter lines up to the first
-terminator, which must exist.  Parts are listed in pre-order; nesting deeper
-than the limit is an error.  The reader of one entity (header access, body) is a
-parameter, so this file depends on no model.
+RFC 2045 / 2046.  What is independent of the model, and how it is written:
+
+* **media type, encoding name** (RFC 2045 5.1, 6.1): `type "/" subtype` is the text of the Content-Type value before the
+  first `;`; it and the Content-Transfer-Encoding mechanism are TOKENS compared without regard to ASCII letter case
+  (`tokenEq`).  `isType`, `decoded`.
+* **cutting into parts** (RFC 2046 5.1.1): the body is cut at *lines* that are exactly `--<b>` (separator) or `--<b>--`
+  (terminator) and are terminated by a newline; parts are the texts between consecutive delimiter lines up to the first
+  terminator, which must exist.  Parts are listed in pre-order; nesting deeper than the limit is an error.  `cutParts`,
+  `parts`.
+* **the boundary parameter, RFC reading** (`boundaryParamRFC`): a parameter scanner over `*(";" attribute "=" value)` with
+  `value := token / quoted-string`, attribute names case-insensitive, the `boundary` parameter in ANY position.
+* **the boundary parameter, mdsort's reading** (`boundaryParam`, used by `parts`): `multipart/` (any case), the text after
+  the FIRST `;` and blanks must be `boundary="` (any case) - first parameter, quoted.  This one follows `parseboundary`
+  on purpose: it is the subset of the RFC form the implementation recognises; `C11_boundary_param_partial` proves it
+  equal to the RFC reading on that subset, and the difference is the listed finding F30 (witnesses in Props/C11.lean).
+
+Not modelled: RFC 822 comments in structured fields, `\`-escapes inside a quoted-string (RFC 2046 `bchars` contain
+neither `"` nor `\`), white space around `=`.  The reader of one entity (header access, body) is a parameter, so this file
+depends on no model.
 -/
 
 namespace Mdsort.Spec
@@ -29,23 +41,86 @@ inductive BoundaryParam where
   | some (b : Bytes)
 deriving Repr, DecidableEq
 
-/-- `multipart/<sub>;<blanks>boundary="<b>"...` -/
+/-- ASCII lower case. -/
+def lowerAscii (c : UInt8) : UInt8 := if 65 ≤ c && c ≤ 90 then c + 32 else c
+
+/-- Tokens of RFC 2045 (media type, parameter names, encoding mechanisms) are matched case-insensitively. -/
+def tokenEq (a b : Bytes) : Bool := a.map lowerAscii == b.map lowerAscii
+
+/-- mdsort's reading (see the file header): `multipart/<sub>;<blanks>boundary="<b>"...`, keywords in any letter case. -/
 def boundaryParam (ct : Bytes) : BoundaryParam :=
   let mp : Bytes := [109, 117, 108, 116, 105, 112, 97, 114, 116, 47]        -- "multipart/"
   let bq : Bytes := [98, 111, 117, 110, 100, 97, 114, 121, 61, 34]           -- boundary="
-  if !mp.isPrefixOf ct then .none
+  if !tokenEq (ct.take mp.length) mp then .none
   else
     match (ct.drop mp.length).dropWhile (fun c => c != 59) with
     | [] => .none
     | _ :: afterSemi =>
       let p := afterSemi.dropWhile isblank
-      if !bq.isPrefixOf p then .none
+      if !tokenEq (p.take bq.length) bq then .none
       else
         let v := p.drop bq.length
         let b := v.takeWhile (fun c => c != 34)
         if b.length == v.length then .bad          -- no closing quote
         else if b.isEmpty then .bad
         else .some b
+
+/-! ## The boundary parameter as RFC 2045 5.1 states it
+
+```
+content := "Content-Type" ":" type "/" subtype *(";" parameter)
+parameter := attribute "=" value          ; attribute matched case-insensitively
+value := token / quoted-string
+token := 1*<any (US-ASCII) CHAR except SPACE, CTLs, or tspecials>
+tspecials := "(" / ")" / "<" / ">" / "@" / "," / ";" / ":" / "\" / <"> / "/" / "[" / "]" / "?" / "="
+```
+Blanks are allowed before and after a `;`. -/
+
+def tspecials : Bytes := [40, 41, 60, 62, 64, 44, 59, 58, 92, 34, 47, 91, 93, 63, 61]
+
+def tokenChar (c : UInt8) : Bool := 32 < c && c < 127 && !tspecials.contains c
+
+/-- One `attribute "=" value` at the head of `s`: the attribute, the value (`none`: no token where one must be, or an
+unterminated quoted-string) and what follows it; `none` if `s` does not begin with `attribute "="`. -/
+def param1 (s : Bytes) : Option (Bytes × Option Bytes × Bytes) :=
+  let name := s.takeWhile tokenChar
+  match s.drop name.length with
+  | 61 :: 34 :: r =>
+    let v := r.takeWhile (fun c => c != 34)
+    match r.drop v.length with
+    | 34 :: rest => some (name, some v, rest)
+    | _ => some (name, none, [])
+  | 61 :: r =>
+    let v := r.takeWhile tokenChar
+    some (name, if v.isEmpty then none else some v, r.drop v.length)
+  | _ => none
+
+/-- The parameters `*(";" parameter)` at the head of `s`, in order (`fuel`: at most that many). -/
+def params : Nat → Bytes → List (Bytes × Option Bytes)
+  | 0, _ => []
+  | fuel + 1, s =>
+    match s.dropWhile isblank with
+    | 59 :: r =>
+      match param1 (r.dropWhile isblank) with
+      | none => []
+      | some (n, v, rest) => (n, v) :: params fuel rest
+    | _ => []
+
+/-- RFC reading of a Content-Type value: not `multipart/...` - `.none`; otherwise the value of the parameter named
+`boundary` (any letter case, any position, token or quoted-string); an empty or malformed value is `.bad`; a multipart
+type without that parameter is `.none` (nothing to cut at). -/
+def boundaryParamRFC (ct : Bytes) : BoundaryParam :=
+  let ty := ct.takeWhile tokenChar
+  match ct.drop ty.length with
+  | 47 :: r =>
+    if !tokenEq ty [109, 117, 108, 116, 105, 112, 97, 114, 116] then .none
+    else
+      let sub := r.takeWhile tokenChar
+      match (params ct.length (r.drop sub.length)).find? (fun p => tokenEq p.1 [98, 111, 117, 110, 100, 97, 114, 121]) with
+      | none => .none
+      | some (_, none) => .bad
+      | some (_, some b) => if b.isEmpty then .bad else .some b
+  | _ => .none
 
 /-- Terminated lines of a text (each without its newline) and the unterminated rest. -/
 def termLines : Bytes → Bytes → List Bytes × Bytes
@@ -96,21 +171,43 @@ def parts {α} (E : Entity α) : Nat → α → Option (List α)
             let p := E.read t
             (parts E fuel p).map fun sub => p :: sub).map List.flatten
 
-/-- Is `ct` the media type `ty` (exactly, or followed by parameters)? -/
+/-- `parts` with the RFC reading of the boundary parameter (what a mail reader sees).  Used by the check to judge the
+implementation; no theorem equates it with the model - finding F30 is the difference. -/
+def partsRFC {α} (E : Entity α) : Nat → α → Option (List α)
+  | 0, _ => none
+  | fuel + 1, e =>
+    match E.contentType e with
+    | none => some []
+    | some ct =>
+      match boundaryParamRFC ct with
+      | .none => some []
+      | .bad => none
+      | .some b =>
+        match cutParts b (termLines (E.body e) []).1 with
+        | none => none
+        | some texts =>
+          (texts.mapM fun t =>
+            let p := E.read t
+            (partsRFC E fuel p).map fun sub => p :: sub).map List.flatten
+
+/-- The media type of a Content-Type value: the text before the first `;` (RFC 2045 5.1: `type "/" subtype`). -/
+def mediaType (ct : Bytes) : Bytes := ct.takeWhile (fun c => c != 59)
+
+/-- Is `ct` the media type `ty`?  Type and subtype are matched case-insensitively (RFC 2045 5.1). -/
 def isType (ct : Option Bytes) (ty : Bytes) : Bool :=
   match ct with
   | none => false
-  | some t => ty.isPrefixOf t && (match t.drop ty.length with | [] => true | c :: _ => c == 59)
+  | some t => tokenEq (mediaType t) ty
 
-/-- Body of one entity decoded by its own Content-Transfer-Encoding (C-string view);
-`none` if it is announced as base64 and is not valid base64. -/
+/-- Body of one entity decoded by its own Content-Transfer-Encoding (C-string view); the mechanism name is matched
+case-insensitively (RFC 2045 6.1); `none` if it is announced as base64 and is not valid base64. -/
 def decoded {α} (E : Entity α) (e : α) : Option Bytes :=
   let b64name : Bytes := [98, 97, 115, 101, 54, 52]
   let qpname : Bytes := [113, 117, 111, 116, 101, 100, 45, 112, 114, 105, 110, 116, 97, 98, 108, 101]
   match E.cte e with
   | some enc =>
-    if enc == b64name then (b64 (E.body e)).map cstr
-    else if enc == qpname then some (cstr (qp false (E.body e)))
+    if tokenEq enc b64name then (b64 (E.body e)).map cstr
+    else if tokenEq enc qpname then some (cstr (qp false (E.body e)))
     else some (E.body e)
   | none => some (E.body e)
 
